@@ -302,3 +302,70 @@ fn coordinate(prop: &dyn Prop, tier: Tier, jobs: Option<usize>, cap: Duration) -
     }
     0
 }
+
+/// A property decided by several engines: the parts run one after the other in every shard.
+pub struct Composite {
+    pub id: &'static str,
+    pub parts: Vec<Box<dyn Prop>>,
+}
+
+impl Prop for Composite {
+    fn id(&self) -> &'static str {
+        self.id
+    }
+
+    fn level(&self) -> &'static str {
+        self.parts[0].level()
+    }
+
+    fn worker(&self, tier: Tier, shard: (usize, usize), deadline: Instant) -> ShardResult {
+        let mut res = ShardResult::default();
+        let n = self.parts.len() as u32;
+        let start = Instant::now();
+        let total = deadline.saturating_duration_since(start);
+        for (i, p) in self.parts.iter().enumerate() {
+            // Each part gets its share of the wall budget (plus what earlier parts left over).
+            let part_deadline = start + total / n * (i as u32 + 1);
+            let mut r = p.worker(tier, shard, part_deadline.min(deadline));
+            for v in r.violations.iter_mut() {
+                v.witness["part"] = serde_json::json!(i);
+            }
+            res.merge(r);
+        }
+        res
+    }
+
+    fn replay(&self, witness: &Value, verbose: bool) -> Vec<Violation> {
+        let i = witness["part"].as_u64().unwrap_or(0) as usize;
+        self.parts[i.min(self.parts.len() - 1)].replay(witness, verbose)
+    }
+
+    fn rule(&self) -> String {
+        self.parts.iter().map(|p| p.rule()).collect::<Vec<_>>().join("  ||  ")
+    }
+
+    fn assumptions(&self) -> Vec<String> {
+        let mut v: Vec<String> = self.parts.iter().flat_map(|p| p.assumptions()).collect();
+        v.dedup();
+        v
+    }
+
+    fn bounds(&self, tier: Tier) -> Value {
+        Value::Array(self.parts.iter().map(|p| p.bounds(tier)).collect())
+    }
+
+    fn vacuity(&self, _tier: Tier, r: &ShardResult) -> Vec<String> {
+        let mut v = vec![];
+        if r.get("executions") == 0 {
+            v.push("no execution ran".to_string());
+        }
+        if r.fingerprints.len() < 2 {
+            v.push("fewer than two distinct outcomes".to_string());
+        }
+        v
+    }
+
+    fn wall_cap(&self, tier: Tier) -> Duration {
+        self.parts.iter().map(|p| p.wall_cap(tier)).max().unwrap()
+    }
+}
